@@ -26,7 +26,7 @@ fn share(v: &mut Vec<Unit>, more: Vec<Unit>) {
 pub fn units(id: &str, tier: &str) -> Option<Vec<Unit>> {
     let thorough = tier == "thorough";
     Some(match id {
-        "C01" => { let mut v = seqprops::c01(thorough); v.push(schedprops::many_subscriptions_unit(thorough)); v.push(c15::limits_unit(thorough)); v.push(seqprops::deadline_walk(thorough)); v.push(seqprops::big_batch_expiry_race(thorough)); v.extend(seqprops::core_units(thorough)); v.extend(schedprops::c01_sched(thorough)); v.push(schedprops::recreate_unit(thorough)); v }
+        "C01" => { let mut v = seqprops::c01(thorough); v.push(schedprops::many_subscriptions_unit(thorough)); v.push(c15::limits_unit(thorough)); v.push(seqprops::deadline_walk(thorough)); v.push(seqprops::big_batch_expiry_race(thorough)); v.extend(seqprops::core_units(thorough)); v.extend(schedprops::c01_sched(thorough)); v.push(schedprops::recreate_unit(thorough)); share(&mut v, c06::cancel_units_small(thorough)); v }
         "C02" => { let mut v = seqprops::c02(thorough); v.extend(seqprops::core_units(thorough)); v.extend(schedprops::c02_sched(thorough)); v.push(c03::abandoned_pull_ack_unit(thorough)); v.push(schedprops::ack_at_deadline_unit(thorough)); v }
         "C03" => {
             let mut v = c03::units(thorough);
@@ -61,8 +61,13 @@ pub fn units(id: &str, tier: &str) -> Option<Vec<Unit>> {
             share(&mut v, schedprops::c11_sched(thorough).into_iter().filter(|u| u.name.contains("list")).collect());
             v
         }
-        "C08" => { let mut v = seqprops::c08(thorough); v.extend(schedprops::c08_sched(thorough)); v.push(schedprops::stream_budget_order_unit()); v }
-        "C09" => c09::units(thorough),
+        "C08" => { let mut v = seqprops::c08(thorough); v.extend(schedprops::c08_sched(thorough)); v.push(schedprops::stream_budget_order_unit()); share(&mut v, c09::units(thorough).into_iter().filter(|u| u.name.starts_with("seq/unique-ids")).collect()); v }
+        "C09" => {
+            let mut v = c09::units(thorough);
+            // the id a delivery carries is the one Publish returned for that message, also with concurrent publishers (shared with C08)
+            share(&mut v, schedprops::c08_sched(thorough).into_iter().filter(|u| u.name == "sched/pub2‖pub2" || u.name == "sched/pub;pub‖pub").collect());
+            v
+        }
         "C10" => { let mut v = seqprops::c10(thorough); v.extend(schedprops::c10_sched(thorough)); share(&mut v, schedprops::c11_sched(thorough)); v }
         "C11" => { let mut v = seqprops::c11(thorough); v.extend(schedprops::c11_sched(thorough)); v.push(c14::interference_unit()); share(&mut v, schedprops::c10_sched(thorough)); v }
         "C12" => {
